@@ -4,7 +4,9 @@ LEAN_MODULES = ["CifModel.Props.C12", "CifModel.Lemmas.ParserTop", "CifModel.Pro
                 "CifModel.Lemmas.ParserReach", "CifModel.Lemmas.DefectChars", "CifModel.Props.C12Chars",
                 # group gW: segments of the element loop, two defects, save frames, abort-on-error handler
                 "CifModel.Lemmas.ParserDefectSeg", "CifModel.Lemmas.DefectCharsSeg", "CifModel.Lemmas.ParserDefectDie",
-                "CifModel.Props.C12Two", "CifModel.Props.C12Frames", "CifModel.Props.C12Die"]
+                "CifModel.Props.C12Two", "CifModel.Props.C12Frames", "CifModel.Props.C12Die",
+                "CifModel.Lemmas.ParserDefectCombo", "CifModel.Lemmas.ParserDefectBare", "CifModel.Props.C12Bare",
+                "CifModel.Lemmas.LexDefectMulti", "CifModel.Props.C12ScanMulti"]
 REQUIRED = ["CifModel.C12_clean", "CifModel.C12_first_report_is_policy_free", "CifModel.C12_missing_value_instance",
             "CifModel.C12_unexpected_value_instance", "CifModel.C12_dup_scalar_instance", "CifModel.C12_dup_loop_header_instance",
             "CifModel.C12_partial_packet_instance", "CifModel.C12_empty_and_null_loop_instance", "CifModel.C12_no_block_header_instance",
@@ -88,7 +90,21 @@ REQUIRED = ["CifModel.C12_clean", "CifModel.C12_first_report_is_policy_free", "C
             "CifModel.Props.C12_die_invalid_itemname", "CifModel.Props.C12_die_unexpected_delim", "CifModel.Props.C12_die_unexpected_term",
             "CifModel.Props.C12_die_missing_value_in_frame", "CifModel.Props.C12_die_dup_itemname_in_frame",
             "CifModel.Props.C12_die_unexpected_value_in_frame", "CifModel.Props.C12_die_invalid_itemname_in_frame",
-            "CifModel.Props.C12Die.C12_die_missing_value_instance", "CifModel.Props.C12Die.C12_die_missing_value_in_frame_instance"]
+            "CifModel.Props.C12Die.C12_die_missing_value_instance", "CifModel.Props.C12Die.C12_die_missing_value_in_frame_instance",
+            # a dropped header name and a short last packet in one loop, all instances (Lemmas/ParserDefectCombo)
+            "CifModel.Model.Parser.dup_header_partial_step_at", "CifModel.Model.Parser.short_row", "CifModel.Model.Parser.Seg.items",
+            "CifModel.C12_seg_dup_header_name_partial_packet", "CifModel.C12_dup_header_name_partial_packet",
+            "CifModel.Props.C12_chars_dup_header_name_partial_packet",
+            "CifModel.Props.C12Frames.C12_chars_dup_header_name_partial_packet_instance",
+            # CIF_INVALID_BARE_VALUE, text prefix (Props/C12Bare)
+            "CifModel.C12_seg_invalid_bare_value", "CifModel.C12_invalid_bare_value", "CifModel.C12_die_invalid_bare_value",
+            "CifModel.C12_text_prefix_never_reported",
+            # scanner level: comments, several defective places, lead surrogate anywhere (Props/C12Scan, Props/C12ScanMulti)
+            "CifModel.C12_defective_unit_comment", "CifModel.C12_defective_unit_comment_nextToken",
+            "CifModel.Model.Lexer.multi", "CifModel.Model.Lexer.EvToWs.lead", "CifModel.Model.Lexer.EvToEol.lead",
+            "CifModel.Model.Lexer.EvDelim.lead", "CifModel.Model.Lexer.EvDelim.of1",
+            "CifModel.C12_several_defects_name", "CifModel.C12_several_defects_quoted", "CifModel.C12_several_defects_comment",
+            "CifModel.C12_invalid_char_lead_anywhere"]
 GEN = ["ErrCodes", "CharClass", "ParseConsts"]
 FAMILIES = ["defect"]
 TRUSTED_BASE = [
